@@ -161,6 +161,13 @@ Proof.
   rewrite !E by lia. reflexivity.
 Qed.
 
+Ltac red_if :=
+  repeat match goal with
+         | |- context [if ?b then _ else _] =>
+           let v := eval vm_compute in b in
+           (match v with true => idtac | false => idtac end); change b with v; cbv iota
+         end.
+
 Theorem encode_decode alloc n m : wf_mset n m = true -> decodes alloc (kentry alloc m) m.
 Proof.
   intros Hwf. destruct (wf_mset_facts _ _ Hwf) as (Ht & Ho & Hmk & Hps & Hpe & Hmask & Hpn & Hpb & Hd & Hl).
@@ -174,18 +181,141 @@ Proof.
   - (* port range *)
     intros Hp. split.
     + unfold ms_port_start. rewrite kentry_split. unfold value16, value_bytes.
-      destruct Hp as [-> | ->]; cbn [is_lpm_type]; rewrite <- app_assoc; now apply le16_bytes_le16.
+      destruct Hp as [-> | ->]; red_if; rewrite <- app_assoc; now apply le16_bytes_le16.
     + unfold ms_port_end, le16. rewrite kentry_split. unfold value16, value_bytes.
-      destruct Hp as [-> | ->]; cbn [is_lpm_type]; unfold byte_at, le16_bytes; cbn [nth app Nat.add]; lia.
+      destruct Hp as [-> | ->]; red_if; unfold byte_at, le16_bytes; cbn [nth app Nat.add]; lia.
   - intros Hp. unfold ms_l4proto_type, le32. rewrite kentry_split. unfold value16, value_bytes. rewrite Hp.
-    unfold byte_at. cbn. lia.
+    red_if. unfold byte_at, zeros. cbn [nth app Nat.add repeat]. lia.
   - intros Hp. unfold ms_ip_version, le32. rewrite kentry_split. unfold value16, value_bytes. rewrite Hp.
-    unfold byte_at. cbn. lia.
+    red_if. unfold byte_at, zeros. cbn [nth app Nat.add repeat]. lia.
   - intros Hp. unfold le64. rewrite kentry_split, !le32_value by lia. unfold value16, value_bytes. rewrite Hp.
-    change (is_lpm_type MatchType_ProcessName) with false. cbv iota.
-    change ((MatchType_ProcessName =? MatchType_Port) || (MatchType_ProcessName =? MatchType_SourcePort)) with false.
-    change ((MatchType_ProcessName =? MatchType_L4Proto) || (MatchType_ProcessName =? MatchType_IpVersion)) with false.
-    change (MatchType_ProcessName =? MatchType_ProcessName) with true. cbv iota.
+    red_if.
     rewrite !le32_nth16 by (lia || assumption). split; reflexivity.
-  - intros Hp. unfold ms_dscp. rewrite kentry_split. unfold value16, value_bytes. rewrite Hp. reflexivity.
+  - intros Hp. unfold ms_dscp. rewrite kentry_split. unfold value16, value_bytes. rewrite Hp. red_if. reflexivity.
+Qed.
+
+(* rewriteKernRulesWithRingLpmIndex on the builder's bytes gives kentry *)
+Lemma rewrite_rule_kentry alloc count n m : wf_mset n m = true -> n <= count -> count <= 1024 ->
+  rewrite_rule alloc count (enc_mset m) = Ok (kentry alloc m).
+Proof.
+  intros Hwf Hn Hc. destruct (wf_mset_facts _ _ Hwf) as (Ht & Ho & Hmk & Hps & Hpe & Hmask & Hpn & Hpb & Hd & Hl).
+  unfold rewrite_rule, enc_mset, kentry.
+  pose proof (length_value_bytes m) as L.
+  rewrite (byte_at_app2' _ _ 16 1 L).
+  change (byte_at ([b2n (m_not m); m_type m; m_out m; b2n (m_must m)] ++ le32_bytes (m_mark m)) 1) with (m_type m).
+  destruct (is_lpm_type (m_type m)) eqn:E; [|reflexivity].
+  specialize (Hl eq_refl).
+  unfold value_bytes. rewrite E. rewrite <- !app_assoc.
+  rewrite le32_bytes_le32 by lia.
+  destruct (N.leb_spec count (m_lpm m)); [lia|].
+  unfold ring_slot. reflexivity.
+Qed.
+
+Lemma rewrite_rules_kentry alloc count n : forall ms, forallb (wf_mset n) ms = true -> n <= count -> count <= 1024 ->
+  rewrite_rules alloc count (map enc_mset ms) = Ok (map (kentry alloc) ms).
+Proof.
+  induction ms as [|m ms IH]; intros Hwf Hn Hc; [reflexivity|].
+  cbn [forallb] in Hwf. apply andb_true_iff in Hwf as [H1 H2].
+  cbn [map rewrite_rules]. rewrite (rewrite_rule_kentry _ _ _ _ H1 Hn Hc), IH by assumption. reflexivity.
+Qed.
+
+(* ---------------------------------------------------------------------------------------------- *)
+(* LPM keys                                                                                         *)
+(* ---------------------------------------------------------------------------------------------- *)
+
+Lemma wf_prefix_facts p : wf_prefix p = true ->
+  px_addr p < 2 ^ 128 /\ (if px_v4 p then px_bits p + 96 else px_bits p) <= 128.
+Proof.
+  unfold wf_prefix. rewrite andb_true_iff. intros [H1 H2]. split; [lia|]. destruct (px_v4 p); lia.
+Qed.
+
+Lemma pow256_16 : 256 ^ N.of_nat 16 = 2 ^ 128.
+Proof. reflexivity. Qed.
+
+Lemma lpm_key_matches x p : wf_prefix p = true -> x < 2 ^ 128 ->
+  lpm_entry_matches 128 (bytes_be 16 x) (key_of_prefix p) = px_covers x p.
+Proof.
+  intros Hp Hx. destruct (wf_prefix_facts _ Hp) as [Ha Hn].
+  unfold lpm_entry_matches, key_prefixlen, key_data, key_of_prefix, px_covers.
+  set (n := if px_v4 p then px_bits p + 96 else px_bits p) in *.
+  rewrite le32_bytes_le32 by lia.
+  change (skipn 4 (le32_bytes n ++ bytes_be 16 (px_addr p))) with (bytes_be 16 (px_addr p)).
+  rewrite !be_bytes_be by (rewrite pow256_16; assumption).
+  destruct (N.leb_spec n 128); [|lia]. reflexivity.
+Qed.
+
+Lemma lpm_lookup_keys x t : forallb wf_prefix t = true -> x < 2 ^ 128 ->
+  lpm_lookup (map key_of_prefix t) 128 (bytes_be 16 x) = existsb (px_covers x) t.
+Proof.
+  intros Ht Hx. unfold lpm_lookup. induction t as [|p t IH]; [reflexivity|].
+  cbn [forallb] in Ht. apply andb_true_iff in Ht as [H1 H2].
+  cbn [map existsb]. rewrite lpm_key_matches, IH by assumption. reflexivity.
+Qed.
+
+(* ---------------------------------------------------------------------------------------------- *)
+(* the ring of LPM slots                                                                            *)
+(* ---------------------------------------------------------------------------------------------- *)
+
+Lemma ring_slot_inj alloc i j : i < MaxMatchSetLen -> j < MaxMatchSetLen ->
+  ring_slot MaxMatchSetLen alloc i = ring_slot MaxMatchSetLen alloc j -> i = j.
+Proof. unfold ring_slot. change MaxMatchSetLen with 1024. intros. lia. Qed.
+
+Lemma ring_slot_window alloc i0 i j : i0 <= i -> i0 <= j -> i < i0 + MaxMatchSetLen -> j < i0 + MaxMatchSetLen ->
+  ring_slot MaxMatchSetLen alloc i = ring_slot MaxMatchSetLen alloc j -> i = j.
+Proof. unfold ring_slot. change MaxMatchSetLen with 1024. intros. lia. Qed.
+
+Lemma ring_slot_lt alloc i : ring_slot MaxMatchSetLen alloc i < K_MAX_LPM_NUM.
+Proof. unfold ring_slot. change MaxMatchSetLen with 1024. change K_MAX_LPM_NUM with 1032. lia. Qed.
+
+Lemma install_tries_other : forall tries f alloc i0 s,
+  (forall j, i0 <= j < i0 + N.of_nat (List.length tries) -> ring_slot MaxMatchSetLen alloc j <> s) ->
+  install_tries f alloc i0 tries s = f s.
+Proof.
+  induction tries as [|t r IH]; intros f alloc i0 s H; [reflexivity|].
+  cbn [install_tries]. rewrite IH.
+  - unfold upd. destruct (N.eqb_spec s (ring_slot MaxMatchSetLen alloc i0)) as [E|E]; [|reflexivity].
+    exfalso. apply (H i0); [cbn [List.length]; lia | now symmetry].
+  - intros j Hj. apply H. cbn [List.length]. lia.
+Qed.
+
+(* every trie of the generation sits in the slot its rewritten index names, whatever was there before *)
+Lemma install_tries_get : forall tries f alloc i0 k t,
+  N.of_nat (List.length tries) <= MaxMatchSetLen ->
+  nth_error tries k = Some t ->
+  install_tries f alloc i0 tries (ring_slot MaxMatchSetLen alloc (i0 + N.of_nat k)) = Some (map key_of_prefix t).
+Proof.
+  induction tries as [|t0 r IH]; intros f alloc i0 k t Hlen Hk; [destruct k; discriminate|].
+  cbn [install_tries]. destruct k as [|k].
+  - cbn in Hk. injection Hk as <-. rewrite N.add_0_r.
+    rewrite install_tries_other.
+    + unfold upd. now rewrite N.eqb_refl.
+    + intros j Hj E. cbn [List.length] in Hlen.
+      assert (j = i0); [|lia].
+      apply (ring_slot_window alloc i0); change MaxMatchSetLen with 1024 in *; (lia || exact E || (symmetry; exact E)).
+  - cbn [nth_error] in Hk. replace (i0 + N.of_nat (S k)) with ((i0 + 1) + N.of_nat k) by lia.
+    apply IH; [|exact Hk]. cbn [List.length] in Hlen. lia.
+Qed.
+
+(* ---------------------------------------------------------------------------------------------- *)
+(* domain bitmaps                                                                                   *)
+(* ---------------------------------------------------------------------------------------------- *)
+
+Lemma le32_nil o : le32 [] o = 0.
+Proof. unfold le32. now rewrite !byte_at_nil. Qed.
+
+Lemma le32_enc_bitmap : forall bm w, (forall x, In x bm -> x < 4294967296) ->
+  le32 (enc_bitmap bm) (4 * w) = nth w bm 0.
+Proof.
+  induction bm as [|x bm IH]; intros w H.
+  - cbn [enc_bitmap flat_map]. rewrite le32_nil. destruct w; reflexivity.
+  - cbn [enc_bitmap flat_map]. fold (enc_bitmap bm). destruct w as [|w].
+    + cbn [Nat.mul nth]. apply le32_bytes_le32. apply H. now left.
+    + replace (4 * S w)%nat with (4 + 4 * w)%nat by lia.
+      rewrite (le32_app2' (le32_bytes x) _ 4 _ eq_refl). cbn [nth]. apply IH. intros y Hy. apply H. now right.
+Qed.
+
+Lemma bit_test x k : (N.land (N.shiftr x k) 1 =? 1) = N.testbit x k.
+Proof.
+  change 1 with (N.ones 1) at 1. rewrite N.land_ones, N.shiftr_div_pow2. change (2 ^ 1) with 2.
+  pose proof (N.testbit_spec' x k) as H. destruct (N.testbit x k); cbn [N.b2n] in H; rewrite <- H; reflexivity.
 Qed.
